@@ -30,6 +30,14 @@ enum Pending {
     Read,
     WriteAnnounce,
     WriteWait,
+    /// a non-blocking attempt (try_read / try_write): always schedulable, the outcome is decided when
+    /// the thread is chosen
+    TryRead,
+    TryWrite,
+    /// a blocking request that has already been granted in the model (another thread's non-blocking
+    /// attempt was made to fail because this thread "got there first"); the thread takes the real lock
+    /// when it is scheduled next
+    PreGranted,
 }
 
 #[derive(Clone, Copy, Debug, PartialEq, Eq)]
@@ -87,7 +95,7 @@ const ABORT_MSG: &str = "sched-abort";
 impl St {
     fn enabled(&self, t: usize) -> bool {
         match self.status[t] {
-            Status::Parked(Pending::Start) | Status::Parked(Pending::WriteAnnounce) => true,
+            Status::Parked(Pending::Start) | Status::Parked(Pending::WriteAnnounce) | Status::Parked(Pending::TryRead) | Status::Parked(Pending::TryWrite) | Status::Parked(Pending::PreGranted) => true,
             Status::Parked(Pending::Read) => self.writer.is_none() && (self.policy == Policy::ReaderPreferring || self.waiting.is_empty()),
             Status::Parked(Pending::WriteWait) => self.writer.is_none() && self.readers.iter().all(|&r| r == 0),
             _ => false,
@@ -213,6 +221,89 @@ impl Sched {
         }
     }
 
+    /// A non-blocking attempt by thread t: a scheduling point; when t is chosen the outcome is decided.
+    /// The attempt succeeds if the model can grant it.  It may ALSO fail whenever another thread is
+    /// parked at a blocking request that could have been granted first (that thread would then hold
+    /// the lock at the moment of the attempt) or, under the writer-preferring policy, at a write
+    /// request that could have been announced first: that alternative is a choice point costing one
+    /// preemption, and taking it grants (or announces) the rival's request in the model.
+    fn park_try(&self, t: usize, kind: LockKind) -> bool {
+        let mut st = self.m.lock().unwrap();
+        st.status[t] = Status::Parked(if kind == LockKind::Read { Pending::TryRead } else { Pending::TryWrite });
+        if st.current == Some(t) {
+            st.current = None;
+        }
+        st.decide();
+        self.wake(&st);
+        loop {
+            if st.abort.is_some() {
+                drop(st);
+                std::panic::panic_any(ABORT_MSG);
+            }
+            if st.current == Some(t) {
+                let free = st.writer.is_none() && st.readers.iter().all(|&r| r == 0);
+                let can_succeed = match kind {
+                    LockKind::Read => st.writer.is_none() && (st.policy == Policy::ReaderPreferring || st.waiting.is_empty()),
+                    LockKind::Write => free,
+                };
+                let n = st.status.len();
+                let rival: Option<usize> = if !can_succeed {
+                    None
+                } else {
+                    (0..n).find(|&u| {
+                        u != t
+                            && match st.status[u] {
+                                Status::Parked(Pending::WriteAnnounce) => free || (kind == LockKind::Read && st.policy == Policy::WriterPreferring),
+                                Status::Parked(Pending::WriteWait) => free,
+                                Status::Parked(Pending::Read) => kind == LockKind::Write && st.enabled(u),
+                                _ => false,
+                            }
+                    })
+                };
+                let mut succeed = can_succeed;
+                if let (true, Some(u)) = (can_succeed, rival) {
+                    let pos = st.trace.len();
+                    let c = if pos < st.prefix.len() { st.prefix[pos] } else { 0 };
+                    if c >= 2 {
+                        st.diverged = Some(format!("replay diverged at choice point {}: choice {} of 2 outcomes of a non-blocking attempt", pos, c));
+                        st.abort = Some("diverged".into());
+                        continue;
+                    }
+                    st.trace.push(Point { enabled: vec![t, u], chosen: c, running_enabled: true });
+                    succeed = c == 0;
+                    if !succeed {
+                        // the rival got there first
+                        match st.status[u] {
+                            Status::Parked(Pending::Read) => {
+                                st.readers[u] += 1;
+                                st.status[u] = Status::Parked(Pending::PreGranted);
+                            }
+                            Status::Parked(Pending::WriteAnnounce) if !free => {
+                                st.waiting.insert(u);
+                                st.status[u] = Status::Parked(Pending::WriteWait);
+                            }
+                            _ => {
+                                st.waiting.remove(&u);
+                                st.writer = Some(u);
+                                st.status[u] = Status::Parked(Pending::PreGranted);
+                            }
+                        }
+                    }
+                }
+                if succeed {
+                    match kind {
+                        LockKind::Read => st.readers[t] += 1,
+                        LockKind::Write => st.writer = Some(t),
+                    }
+                }
+                st.status[t] = Status::Running;
+                st.last_running = Some(t);
+                return succeed;
+            }
+            st = self.cvs[t].wait(st).unwrap();
+        }
+    }
+
     fn release(&self, t: usize, kind: LockKind) {
         let mut st = self.m.lock().unwrap();
         match kind {
@@ -252,6 +343,9 @@ impl LockObserver for Obs {
     fn after_acquire(&self, _lock: usize, _kind: LockKind) {}
     fn after_release(&self, _lock: usize, kind: LockKind) {
         self.sched.release(self.t, kind);
+    }
+    fn try_acquire(&self, _lock: usize, kind: LockKind) -> Option<bool> {
+        Some(self.sched.park_try(self.t, kind))
     }
 }
 
